@@ -72,6 +72,10 @@ def small_specs() -> st.SearchStrategy[t.Any]:
         st.tuples(st.just('seq'), st.sampled_from(['list', 'set', 'tuplevar', 'frozenset', 'deque', 'List', 'Sequence']), sc),
         st.tuples(st.just('map'), st.sampled_from(['dict', 'Dict', 'defaultdict']), st.sampled_from([S('str'), S('int')]), sc),
         st.tuples(st.just('tup'), st.sampled_from(['tuple', 'Tuple']), st.lists(sc, min_size=1, max_size=3).map(tuple)),
+        st.tuples(st.just('seq'), st.sampled_from(['list', 'set', 'tuplevar', 'List']),
+                  st.lists(st.sampled_from([S('int'), S('float'), S('str'), S('bool')]), min_size=2, max_size=2, unique_by=repr).map(lambda ms: ('union', 'Union', tuple(ms)))),
+        st.tuples(st.just('map'), st.sampled_from(['dict', 'Dict']), st.just(S('str')),
+                  st.lists(st.sampled_from([S('int'), S('float'), S('complex')]), min_size=2, max_size=2, unique_by=repr).map(lambda ms: ('union', 'Union', tuple(ms)))),
         st.tuples(st.just('union'), st.just('Union'), st.lists(sc, min_size=2, max_size=3, unique_by=repr).map(tuple)),
         st.lists(sc, min_size=2, max_size=2, unique_by=repr).flatmap(lambda ab: st.sampled_from([
             ('union', 'Union', (('seq', 'List', ab[0]), ('seq', 'List', ab[1]))),
@@ -81,6 +85,14 @@ def small_specs() -> st.SearchStrategy[t.Any]:
         st.tuples(st.just('ann'), st.just(S('int')), st.lists(tg.COND_NUM, min_size=1, max_size=1).map(tuple)),
         cg.class_specs(sc, max_fields=2, naming=False, hooks=False),
     )
+
+
+def permuted(spec: t.Any) -> t.Any:
+    if isinstance(spec, tuple) and spec and spec[0] == 'union':
+        return ('union', spec[1], tuple(permuted(m) for m in reversed(spec[2])))
+    if isinstance(spec, tuple):
+        return tuple(permuted(x) for x in spec)
+    return spec
 
 
 class Executor:
@@ -317,6 +329,15 @@ def make_machine(step_budget: int, big: bool) -> t.Any:
 
         @rule(spec=specs)
         def build(self, spec: t.Any) -> None:
+            self.ex.apply(['build', spec])
+            self.specs.append(spec)
+
+        @precondition(lambda self: len(self.specs) > 0)
+        @rule(i=st.integers(0, 15))
+        def build_permuted(self, i: int) -> None:
+            # an *equal-looking* type: same shape, union members in the opposite order (typing's Union equality ignores order,
+            # pane's semantics do not), or the same spec again as a new object
+            spec = permuted(self.specs[i % len(self.specs)])
             self.ex.apply(['build', spec])
             self.specs.append(spec)
 
